@@ -115,7 +115,7 @@ func init() {
 			"(b) a non-nil handler error closes the connection: receivePacket and Client.Read return it, attachClient defers Client.Stop before Read; " +
 			"(c) every acknowledgement carries the request's packet identifier (buildAck argument / Suback-Unsuback literal flow from pk.PacketID); " +
 			"(d) SUBACK/UNSUBACK: the reason-code slice is sized by the request's filter list and every path through the per-filter loop body stores slot i.",
-		NotDecided: []string{"bytes on the wire", "behaviour with custom hooks that reject or rewrite packets", "QoS downgraded to 0 by Capabilities.MaximumQos"},
+		NotDecided:  []string{"bytes on the wire", "behaviour with custom hooks that reject or rewrite packets", "QoS downgraded to 0 by Capabilities.MaximumQos"},
 		Assumptions: []string{"path facts are keyed by the condition's text; a field rewritten between test and use (only the MaximumQos clamp does that) is assumed not to change the fact"},
 		Run:         runC07,
 	})
@@ -135,7 +135,9 @@ func runC07(c *Ctx) {
 		byName[n] = k
 	}
 	qosPos := []Assume{assumeEq("pk.FixedHeader.Qos == 0", false), assumeEq("cl.Net.Inline", false),
-		{Match: func(t string) bool { return strings.HasPrefix(t, "errors.Is(") && strings.HasSuffix(t, "packets.ErrRejectPacket)") }, Truth: false}}
+		{Match: func(t string) bool {
+			return strings.HasPrefix(t, "errors.Is(") && strings.HasSuffix(t, "packets.ErrRejectPacket)")
+		}, Truth: false}}
 	hs := []handlerSpec{
 		{"(*Server).processPublish", []string{"Puback", "Pubrec"}, qosPos, true},
 		{"(*Server).processPubrel", []string{"Pubcomp"}, nil, true},
